@@ -157,7 +157,7 @@ def value_for(draw, cname, pname, param, classes, depth):
         return ("obj", draw(instance_desc(classes, fam, depth - 1)))
     if pname == "operations":
         fam = draw(st.sampled_from(["displacement", "deformation"]))
-        return ("objs", draw(st.lists(instance_desc(classes, fam, depth - 1), min_size=1, max_size=3)), draw(st.sampled_from([1, 1, 2])))
+        return ("objs", draw(with_twin(st.lists(instance_desc(classes, fam, depth - 1), min_size=1, max_size=3))), draw(st.sampled_from([1, 1, 2])))
     if pname == "moves":
         ann = str(param.annotation)
         want = "ExchangeMove" if "ExchangeMove" in ann else "DisplacementMove" if "DisplacementMove" in ann else None
@@ -165,7 +165,7 @@ def value_for(draw, cname, pname, param, classes, depth):
             elems = st.lists(instance_desc(classes, "move:" + want, depth - 1), min_size=1, max_size=3)
         else:
             elems = st.lists(instance_desc(classes, "move", depth - 1), min_size=1, max_size=3)
-        return ("objs", draw(elems), draw(st.sampled_from([1, 1, 2])))
+        return ("objs", draw(with_twin(elems)), draw(st.sampled_from([1, 1, 2])))
     if pname == "move":
         return ("obj", draw(instance_desc(classes, "anymove", depth - 1)))
     if pname == "criteria":
@@ -175,6 +175,26 @@ def value_for(draw, cname, pname, param, classes, depth):
     if default is inspect.Parameter.empty:
         return ("unknown",)
     return ("skip",)
+
+
+@st.composite
+def with_twin(draw, elems):
+    """Sometimes append a twin of one child: equal constructor arguments, other tunables (children that differ only
+    in what was set after construction are still different children)."""
+    import copy
+
+    xs = list(draw(elems))
+    if xs and draw(st.integers(0, 2)) == 0:
+        twin = copy.deepcopy(xs[draw(st.integers(0, len(xs) - 1))])
+        if "args" in twin:
+            tun = {}
+            for t, (kind, _d) in TUNABLES.items():
+                if draw(st.booleans()):
+                    tun[t] = draw(st.integers(1, 500)) if kind == "int" else draw(st.sampled_from([None, -1, 0, 3])) if kind == "label" else draw(fl(0.05, 0.95))
+            twin["tun"] = tun
+            twin.pop("retune", None)
+            xs.append(twin)
+    return xs
 
 
 def family_classes(classes, family):
@@ -232,7 +252,12 @@ def instance_desc(draw, classes, family, depth, cname=None):
                     tun[t] = draw(st.sampled_from([None, -1, 0, 3]))
                 else:
                     tun[t] = draw(st.one_of(fl(0.05, 0.95), st.sampled_from([0.0, 1.0])))
-    return {"cls": cname, "args": args, "tun": tun}
+    # constructor parameters assigned again after construction under their own attribute name (documented tunables)
+    retune = {}
+    for pname, param in list(sig.parameters.items())[1:]:
+        if pname in args and args[pname][0] == "val" and draw(st.integers(0, 3)) == 0:
+            retune[pname] = draw(value_for(cname, pname, param, classes, 0))
+    return {"cls": cname, "args": args, "tun": tun, "retune": retune}
 
 
 def depth_of(desc):
@@ -286,6 +311,21 @@ def _build_raw(desc, classes):
                 applied[t] = val
             except AttributeError:
                 pass
+    from ase.units import fs
+
+    for pname, v in (desc.get("retune") or {}).items():
+        if v[0] != "val" or not hasattr(obj, pname):
+            continue
+        cur = getattr(obj, pname)
+        try:
+            if pname == "dt" and cur == kwargs.get("dt", 1.0) * fs:
+                setattr(obj, pname, v[1] * fs)  # the integrators keep their time step in ASE units
+                applied[pname] = v[1] * fs
+            elif type(cur) is type(kwargs.get(pname)) and cur == kwargs.get(pname):
+                setattr(obj, pname, v[1])  # the attribute holds the parameter as given: assigning it is the tunable
+                applied[pname] = v[1]
+        except Exception:
+            pass
     return obj, kwargs, applied
 
 
@@ -358,7 +398,9 @@ def run_component(case, classes=None):
     except Exception as exc:
         return {"labels": labels + ["raised"], "nontrivial": True, "key": cname + "|raise",
                 "violation": {"kind": f"roundtrip-raises:{cname}:{type(exc).__name__}", "detail": f"{cname}: to_dict/JSON/from_dict by registered name raised {type(exc).__name__}: {str(exc)[:300]}"}}
-    nondefault = sorted(list(kwargs) + list(applied))
+    nondefault = sorted(set(list(kwargs) + list(applied)))
+    if desc.get("retune") and set(desc["retune"]) & set(applied):
+        labels.append("retuned-after-construction")
     out = {"labels": labels, "nontrivial": bool(nondefault), "key": f"{cname}|{','.join(nondefault)}|{depth_of(desc)}|{nested_names(desc)}", "violation": None}
     if type(obj2) is not type(obj):
         out["violation"] = {"kind": f"type-changed:{cname}", "detail": f"rebuilt object is a {type(obj2).__name__}"}
@@ -369,6 +411,8 @@ def run_component(case, classes=None):
         except AttributeError:
             continue  # parameter not stored under its own name: covered by the dictionary comparison below
         r = same(a, b, name)
+        if r and name == "dt" and isinstance(a, float) and isinstance(b, float) and abs(a - b) <= 1e-12 * abs(a):
+            r = None  # unit conversion fs <-> ASE time units rounds
         if r:
             out["violation"] = {"kind": f"parameter-lost:{cname}:{name}", "detail": f"{cname}: after the round trip {r}"}
             return out
